@@ -75,6 +75,17 @@ def is_core_cell(t, x, y):
     return in_core_y and x < ix_in
 
 
+def n_core_cells(t):
+    """Number of y-indices BOUT++ treats as core: (jyseps1_1, jyseps2_1] and (jyseps1_2, jyseps2_2].
+    Zero for an isolated X-point (TORPEX), where all four legs are open."""
+    ny = t["ny"]
+    j11, j21, j12 = t["jyseps1_1"], t["jyseps2_1"], t["jyseps1_2"]
+    j22 = min(t["jyseps2_2"], ny - 1)
+    if j21 == j12:
+        return max(j22 - j11, 0)
+    return max(j21 - j11, 0) + max(j22 - j12, 0)
+
+
 def file_y(t, y):
     """Index of guard-free y in the guard-containing file arrays."""
     myg = t["myg"]
